@@ -351,6 +351,13 @@ theorem fresh_usable_implies_spendable_full_refuted : ¬ fresh_usable_implies_sp
   revert h1
   decide
 
+/-- the hypotheses of `usable_implies_spendable_partial` are met by a non-trivial state: after
+    attaching block 1 the wallet's coinbase UTXO 1 (ValidHeight 10) is usable at height 10 and
+    consensus lets it be spent at height 11 -/
+example : ∃ u, dbGet 1 (walk f15Params [.push ⟨1, 0, 0, [cbTx 1 1]⟩] ([], [])).2 = some u ∧
+    (u.validHeight ≠ 0 ∨ u.gKind = 0) ∧ usable u 10 = true ∧ spendableAt f15Params u.gKind u.gHeight 11 = true :=
+  ⟨⟨1, 0, 500, 1, 0, 1, 10, 1, 0⟩, by decide, by decide, by decide, by decide⟩
+
 /-- testnet / solonet (constant 10) satisfy the assumption -/
 example : ParamsOK ⟨fun _ => true, fun _ => 0, 10, fun _ => 10⟩ := ⟨fun _ _ _ => Nat.le_refl _, fun _ => by simp⟩
 
